@@ -83,6 +83,10 @@ Qed.
    the application (or stashes it) only for the context registered under the
    arriving id, whose request is on the wire and which has no reply yet; the
    message is the wire message minus the id. *)
+Lemma not_in_frees fx c a rv b :
+  ~ In (Complete a rv b) (match cx_req c with Some r => if retry_on fx c then [Free r] else [] | None => [] end).
+Proof. destruct (cx_req c); [destruct (retry_on fx c)|]; cbn; intuition discriminate. Qed.
+
 Lemma req_recvdone_delivery fx s p rv m s' outs a b :
   req_step fx s (PRecvDone p rv m) = (s', outs) ->
   In (Complete a E_OK (Some b)) outs ->
@@ -101,11 +105,11 @@ Proof.
   destruct (cx_recv c) as [ra|] eqn:ERA.
   - inversion H; subst. cbn [In] in Hin. destruct Hin as [E|Hin]; [discriminate|].
     apply in_app_or in Hin. destruct Hin as [Hin|Hin].
-    + destruct (cx_req c); [|destruct Hin]. destruct (retry_on fx c); cbn in Hin; [destruct Hin as [E|[]]; discriminate|destruct Hin].
+    + exfalso. eapply not_in_frees; eauto.
     + cbn in Hin. destruct Hin as [E|[]]. inversion E; subst.
       exists id, k, c. unfold matchable. auto.
   - inversion H; subst. cbn [In] in Hin. destruct Hin as [E|Hin]; [discriminate|].
-    destruct (cx_req c); [|destruct Hin]. destruct (retry_on fx c); cbn in Hin; [destruct Hin as [E|[]]; discriminate|destruct Hin].
+    exfalso. eapply not_in_frees; eauto.
 Qed.
 
 (* the other way a reply reaches the application: a receive posted after the
